@@ -33,9 +33,11 @@ def store_op(pids, n_contents, allow_none=True, validation=True, kinds=("str",),
 
 
 def cid_spec(n_contents, cfg_algo="SHA-256", never=True):
-    specs = [st.integers(0, n_contents - 1).map(lambda i: {"of": i})]
+    specs = [st.integers(0, n_contents - 1).map(lambda i: {"of": i})] * 3
     if never:
         specs.append(st.just({"raw": NEVER_CIDS[cfg_algo]}))
+        # a never-stored cid that is a case variant of a real one
+        specs.append(st.integers(0, n_contents - 1).map(lambda i: {"of": i, "upper": True}))
     return st.one_of(*specs)
 
 
